@@ -339,11 +339,12 @@ theorem findByte_split (c : UInt8) (a : Bytes) (p : Nat) (h : findByte c a = som
       exact ⟨fun e => hx e.symm, h1⟩
 
 /-- **An accepted chunk-size line is strict** (strict mode): `1*HEXDIG`, optionally followed by
-a chunk extension that starts with `;` and contains no LF; the size is the value of the digits. -/
+a chunk extension that starts with `;` and contains neither LF nor CR; the size is the value of
+the digits. -/
 theorem chunk_size_line_strict (cfg : Cfg) (hs : cfg.lax = false) (line : Bytes) (n : Nat)
     (h : chunkSizeOf cfg line = some n) :
     ∃ digits ext, line = digits ++ ext ∧ digits ≠ [] ∧ (∀ b ∈ digits, isHexB b = true) ∧
-      ofHex digits = some n ∧ (ext = [] ∨ (ext.head? = some 59 ∧ (10 : UInt8) ∉ ext)) := by
+      ofHex digits = some n ∧ (ext = [] ∨ (ext.head? = some 59 ∧ (10 : UInt8) ∉ ext ∧ (13 : UInt8) ∉ ext)) := by
   unfold chunkSizeOf at h
   simp only [hs, Bool.false_eq_true, if_false] at h
   cases hf : findByte 59 line with
@@ -360,14 +361,14 @@ theorem chunk_size_line_strict (cfg : Cfg) (hs : cfg.lax = false) (line : Bytes)
   | some i =>
     simp only [hf] at h
     obtain ⟨_, hhead⟩ := findByte_split 59 line i hf
-    by_cases hbad : ((line.drop i).any (· == 10)) = true
-    · simp [hbad] at h
-    · simp only [hbad, if_false] at h
+    by_cases hbad : ((line.drop i).any (fun b => b == 10 || (!false && b == 13))) = true
+    · rw [if_pos hbad] at h; cases h
+    · rw [if_neg hbad] at h
       by_cases hc : ((line.take i).isEmpty || !(line.take i).all isHexB) = true
       · simp [hc] at h
       · simp only [hc, if_false] at h
         simp only [Bool.or_eq_true, not_or, Bool.not_eq_true', Bool.not_eq_eq_eq_not, Bool.not_true, Bool.not_eq_false] at hc
-        refine ⟨line.take i, line.drop i, by simp, ?_, ?_, h, Or.inr ⟨hhead, ?_⟩⟩
+        refine ⟨line.take i, line.drop i, by simp, ?_, ?_, h, Or.inr ⟨hhead, ?_, ?_⟩⟩
         · intro e; rw [e] at hc; simp at hc
         · have := hc.2
           simpa [List.all_eq_true] using this
@@ -375,5 +376,9 @@ theorem chunk_size_line_strict (cfg : Cfg) (hs : cfg.lax = false) (line : Bytes)
           apply hbad
           simp only [List.any_eq_true]
           exact ⟨10, hm, by simp⟩
+        · intro hm
+          apply hbad
+          simp only [List.any_eq_true]
+          exact ⟨13, hm, by simp⟩
 
 end Aio.Http
